@@ -109,7 +109,7 @@ def nt_restart(h):
 
 
 def run_marmot(ctx, rt, *, invariants, properties=(), view, mc, profiles, nontrivial, rule, level="model_checking",
-               assumptions=None, known_tags=()):
+               assumptions=None, known_tags=(), schedules=None):
     pid, tier, seed = ctx["pid"], ctx["tier"], ctx["seed"]
     t0 = ctx["t0"]
     rt.build_harness()
@@ -120,9 +120,14 @@ def run_marmot(ctx, rt, *, invariants, properties=(), view, mc, profiles, nontri
     states = transitions = 0
     mc_runs = []
     # (A) exhaustive model checking of the design
-    for (module, cfg, to) in mc.get(tier, mc.get("quick", [])):
-        r = rt.tlc_mc(module, cfg, workers=8, timeout=to)
-        mc_runs.append({"cfg": cfg, "states": r["states"], "transitions": r["transitions"], "completed": r["completed"]})
+    for ent in mc.get(tier, mc.get("quick", [])):
+        (module, cfg, to) = ent[:3]
+        extra = ent[3] if len(ent) > 3 else ""
+        if "-simulate" in extra:
+            extra = extra + " -seed %d" % (seed + 7)
+        r = rt.tlc_mc(module, cfg, workers=8, timeout=to, extra=extra)
+        mc_runs.append({"cfg": cfg, "mode": "simulation" if "-simulate" in extra else "exhaustive", "states": r["states"],
+                        "transitions": r["transitions"], "behaviours": r.get("behaviours", 0), "completed": r["completed"]})
         states += r["states"]
         transitions += r["transitions"]
         if r["violated"]:
@@ -190,6 +195,31 @@ def run_marmot(ctx, rt, *, invariants, properties=(), view, mc, profiles, nontri
                     samples.append({"profile": argv, "schedule": sched_of(h)[:60]})
         if viol:
             break
+    # (B') spec -> implementation: schedules derived from TLC counterexamples / directed cases, replayed on the real code
+    for sf in (schedules or []):
+        if viol:
+            break
+        for be in ("mem", "sql"):
+            tr = os.path.join(traces_dir, "%s_sched_%s_%s.ndjson" % (pid, os.path.basename(sf)[:-5], be))
+            rc, out = rt.sh("%s sched %s %s %s" % (rt.BIN, os.path.join(rt.ROOT, "schedules", sf), tr, be), timeout=600,
+                            env={"VERIF_DEV": ",".join(dev)})
+            if rc != 0:
+                rt.log(out[-2000:]); rt.log("TOOL-ERROR: schedule replay failed: %s" % sf); return 2
+            patch_meta(rt, tr, VIEWS, dev)
+            r = rt.tlc_trace("MarmotTrace.tla", cfg_text, tr, view=view, timeout=600)
+            events += r["states"]
+            for (p, tag) in r["known"]:
+                known_seen.add((p, tag))
+            nh += 1
+            if r["toolerr"]:
+                rt.log(r["out"][-2000:]); rt.log("TOOL-ERROR: TLC failed on schedule %s" % sf); return 2
+            if not r["accepted"]:
+                rp = os.path.join(rt.OUT, "replays", "%s_sched_%s_%s.json" % (pid, os.path.basename(sf)[:-5], be))
+                os.makedirs(os.path.dirname(rp), exist_ok=True)
+                json.dump({"property": pid, "schedule": sf, "backend": be, "violated": r["violated"], "mismatch": r["mismatch"],
+                           "trace_file": tr}, open(rp, "w"))
+                viol.append((("schedule %s/%s: " % (sf, be)) + (",".join(r["violated"]) or "step-not-allowed-by-spec") + " " + r["mismatch"][:200], rp))
+                break
     # unlisted known-finding tags are violations
     for (p, tag) in sorted(known_seen):
         if (p, tag) not in known:
@@ -224,8 +254,12 @@ ASSUME_MARMOT = [
     "TLC exhaustive part is bounded by the constants in the MC cfg; real executions are sampled (seeded)",
 ]
 
-MC_CORE = {"quick": [("MCMarmot.tla", "MC_core_quick.cfg", 600)],
-           "thorough": [("MCMarmot.tla", "MC_core_quick.cfg", 600)]}
+# exhaustive bounded instance (core race) + random behaviours of the FULL action set (membership, welcomes, restart, hostile
+# events, adversary) with the invariants of all Marmot properties
+MC_CORE = {"quick": [("MCMarmot.tla", "MC_core_quick.cfg", 600),
+                     ("MCMarmot.tla", "MC_full_sim.cfg", 300, "-simulate num=80 -depth 50")],
+           "thorough": [("MCMarmot.tla", "MC_core_quick.cfg", 600),
+                        ("MCMarmot.tla", "MC_full_sim.cfg", 1500, "-simulate num=20000 -depth 60")]}
 
 
 def core_profiles(extra=None, n=10, steps=40):
@@ -265,7 +299,7 @@ def plan_C07(ctx, rt):
 
 def plan_C08(ctx, rt):
     return run_marmot(ctx, rt, invariants=["InvC08"], view="C08", mc=MC_CORE, profiles=core_profiles(),
-                      nontrivial=nt_commit, assumptions=ASSUME_MARMOT,
+                      nontrivial=nt_commit, assumptions=ASSUME_MARMOT, schedules=["two_welcomes.json"],
                       rule="as C01; record vs MLS projection compared after every call; non-trivial = a remote commit was applied")
 
 
@@ -343,7 +377,7 @@ def nt_welcome(h):
 
 def plan_C16(ctx, rt):
     return run_marmot(ctx, rt, invariants=["InvC16", "InvC08"], properties=["ActC16", "ActC16Join"], view="C16", mc=MC_CORE,
-                      profiles=welcome_profiles(), nontrivial=nt_welcome, assumptions=ASSUME_MARMOT,
+                      profiles=welcome_profiles(), nontrivial=nt_welcome, assumptions=ASSUME_MARMOT, schedules=["two_welcomes.json"],
                       rule="directed-random invitation scenarios: valid welcome, the same rumor replayed under fresh wrapper ids, welcome "
                            "handed to a non-recipient, process/accept/decline in random order and repetition, interleaved with messages and "
                            "commits, remove + re-invite with the joiner having / not having processed its removal; recipients in every state "
